@@ -16,14 +16,14 @@ def main():
             if st.get("kind", "harness") == "harness" and st.get("link_lib", True):
                 if not st.get("tiers") or "quick" in st["tiers"]:
                     variants.add(st.get("variant", "asan"))
-    for v in sorted(variants):
-        build.build_lib(v)
-        print("built lib variant", v, "%.1fs" % (time.time() - t))
+    from . import driver
     jobs = []
     for pid, spec in props.SPECS.items():
-        for st in spec["stages"]:
+        for st in driver._with_release_mirror(spec, "quick"):
             if st.get("kind", "harness") == "harness" and (not st.get("tiers") or "quick" in st["tiers"]):
                 jobs.append(st)
+                if st.get("link_lib", True):
+                    variants.add(st.get("variant", "asan"))
 
     def one(st):
         try:
@@ -33,6 +33,9 @@ def main():
             return None
         except build.BuildError as ex:
             return "%s: %s" % (st["name"], ex)
+    for v in sorted(variants):
+        build.build_lib(v)
+        print("built lib variant", v, "%.1fs" % (time.time() - t))
     # harnesses that Python stages build themselves (not visible as `kind: harness` stages)
     jobs += [{"name": "c05_fuzz", "variant": "fuzz", "extra_link": ["-fsanitize=fuzzer"]},
              {"name": "c09_fuzz", "variant": "fuzz", "extra_link": ["-fsanitize=fuzzer"]},
